@@ -50,6 +50,7 @@ type LoopSpec struct {
 	Decreases *Clause
 	Lets      []*Let
 	ELets     []*Let // evaluated once at loop entry (before the havoc)
+	Publish   bool   // containers under construction are published (become subject to wf) at loop entry
 }
 
 type CallWith struct {
@@ -315,6 +316,10 @@ func loadContracts(path string) (*ContractFile, error) {
 					return nil, fmt.Errorf("contracts:%d: bad loop ordinal", ln)
 				}
 				cur.Loops[n] = curLoop
+			}
+		case "publish":
+			if curLoop != nil {
+				curLoop.Publish = true
 			}
 		case "ghost":
 			for _, g := range strings.Split(rest, ",") {
